@@ -11,16 +11,37 @@ From G Require Import Base Sys SysProofs SysProps.
 Open Scope nat_scope.
 
 Theorem C11_no_client_needed : forall cfg s, stop_interrupts cfg = true -> add_before_accept cfg = true ->
-  reachable cfg s -> alive s = true ->
+  untrack_late cfg = true -> reachable cfg s -> alive s = true ->
   (exists i p, nth_error (stops s) i = Some p /\ p <> SRet) -> no_external_block s ->
   exists l, internal l = true /\ step cfg s l <> None.
 Proof. exact stop_progress. Qed.
 Print Assumptions C11_no_client_needed.
 
 Theorem C11_interrupt_pass : forall cfg s, reachable cfg s -> stop_interrupts cfg = true -> existsb past_interrupt (stops s) = true ->
-  Forall (fun c => interrupted c = true) (conns s).
+  Forall (fun c => interrupted c = true \/ tracked c = false) (conns s).
 Proof. exact intr_inv_reachable. Qed.
 Print Assumptions C11_interrupt_pass.
+
+(* a connection the pass does not reach (it had left the table) has, with the late
+   untrack of the current tree, nothing left to do that could wait for its client *)
+Theorem C11_untracked_needs_no_client : forall cfg c todo, untrack_late cfg = true -> td_inv cfg c -> pc c = CTeardown todo ->
+  existsb is_untrack todo = false ->
+  todo = [TOnClose; TWgDone] \/ todo = [TWgDone] \/ todo = [TOnClose] \/ todo = [].
+Proof. exact untracked_rest. Qed.
+Print Assumptions C11_untracked_needs_no_client.
+
+(* with untrackConn before conn.close (first version of the repair) Stop can wait for ever *)
+Theorem C11_early_untrack_refuted :
+  exists s, run_labels early_untrack_cfg init
+              [ECallRun true true; LRun; LRun; EConnect; LRun; LRun; LRun; LConn 0; LConn 0; EStall 0 true;
+               ESend 0 (IReq KNormal [HWrite]); LConn 0; ESend 0 (IReq KUnbind []); LConn 0; LConn 0; LConn 0; LConn 0;
+               ECallStop; LStop 0; LStop 0; LStop 0; LRun] = Some s /\
+            nth_error (stops s) 0 = Some SWait /\ onclose_held s = false /\
+            (exists c, nth_error (conns s) 0 = Some c /\ hs c = [(1, [HWrite])] /\ interrupted c = false /\ tracked c = false) /\
+            step early_untrack_cfg s (LStop 0) = None /\ step early_untrack_cfg s LRun = None /\
+            step early_untrack_cfg s (LConn 0) = None /\ step early_untrack_cfg s (LHandler 0 1) = None.
+Proof. exact stop_progress_early_untrack_refuted. Qed.
+Print Assumptions C11_early_untrack_refuted.
 
 Theorem C11_pinned_refuted : exists s, run_labels pinned_cfg init
               [ECallRun true true; LRun; LRun; EConnect; LRun; LRun; LConn 0; LConn 0;
